@@ -23,7 +23,7 @@ func init() {
 			"dominated by a lower bound >= 0 (or is unsigned / provably non-negative) and an upper bound that is a constant, a parameter, the type's width, or the min(n, cap) idiom.",
 		Explanation: "Decides: truncated input cannot yield a value (structurally: counts are honoured), reader/writer agreement on widths and field order for all primitive pairs, " +
 			"width consistency of masks, and that length prefixes are validated before allocation. Does not decide: value-level inverse for all values (UTF-8 subtleties, float NaNs).",
-		Fixtures: []string{"wire", "bounds", "knownbits", "errdisc"},
+		Fixtures: []string{"wire", "bounds", "knownbits", "bitprov", "errdisc"},
 		Variants: []Variant{
 			{Name: "short-read-uint32", File: pkgUtil + "/reader.go",
 				Old: "\t_, err = io.ReadFull(reader, protocol[:4])", New: "\t_, err = reader.Read(protocol[:4])", Expect: "short-read"},
@@ -268,6 +268,8 @@ func runC03(c *Ctx) {
 	if nAlloc < 8 {
 		c.Undecided("alloc-bounded", "coverage", fmt.Sprintf("expected ≥8 stream-sized allocations in proto/util, found %d", nAlloc))
 	}
+	// ---- (5) the 1.7 extended short: reader and writer place every bit alike (P6b)
+	checkForgeShortLayout(c, "forge-short-layout")
 }
 
 // allocBounds decides whether size value sz (used by make at ms) has a dominating lower bound >= 0
